@@ -156,6 +156,13 @@ func (c *conn) Close() error {
 // CloseWrite shuts down the write side of the connection
 // if the underlying connection supports it.
 func (c *conn) CloseWrite() error {
+	if tc, ok := c.c.(*tls.Conn); ok {
+		// the close_notify alert can only be sent after the handshake
+		// which may still be in progress in the reading direction
+		if err := tc.Handshake(); err != nil {
+			return err
+		}
+	}
 	if cw, ok := c.c.(closeWriter); ok {
 		return cw.CloseWrite()
 	}
